@@ -2,6 +2,8 @@
 import IgrisModel.C06.LemCount
 import IgrisModel.C06.LemConv
 import IgrisModel.C06.LemWrap
+import IgrisModel.C06.LemGrammar
+import IgrisModel.C06.LemRange
 namespace Igris.C06
 open Iso
 
